@@ -87,16 +87,34 @@ def first_byte_diff(a, b):
     return None
 
 
-def stdin_variant(specs):
+def stdin_variant(specs, text=None):
     d = explore.fresh_dir('cli')
     try:
         be = os.path.join(d, 'noop.stoneg.py')
         with open(be, 'w') as f:
             f.write('from stone.backend import Backend\nclass NoopBackend(Backend):\n    preserve_aliases = True\n    def generate(self, api):\n        pass\n')
-        text = ''.join(t for _, t in specs)
+        if text is None:
+            text = ''.join(t for _, t in specs)
         return impl.run_cli([be, os.path.join(d, 'out')], stdin_text=text)
     finally:
         shutil.rmtree(d, ignore_errors=True)
+
+
+def stdin_texts(specs):
+    """Layouts of the concatenated text that standard input may carry: the files as they are, and - the part that decides where one
+    spec ends and the next begins - every namespace line with a trailing comment / trailing blanks, a comment or blank line before
+    it, and a missing final newline at the end of the whole text."""
+    yield 'plain', ''.join(t for _, t in specs)
+    for lab, fn in (('ns-trailing-comment', lambda l: l + '  # c'), ('ns-trailing-blanks', lambda l: l + '   '), ('ns-trailing-tab', lambda l: l + '\t'),
+                    ('comment-before-ns', lambda l: '# namespace zz\n' + l), ('blank-before-ns', lambda l: '\n' + l), ('ns-two-blanks', lambda l: l.replace('namespace ', 'namespace  ', 1))):
+        parts = []
+        for _, t in specs:
+            lines = t.split('\n')
+            parts.append('\n'.join(fn(l) if l.startswith('namespace ') else l for l in lines))
+        yield lab, ''.join(parts)
+    whole = ''.join(t for _, t in specs)
+    if whole.endswith('\n'):
+        yield 'no-final-newline', whole[:-1]
 
 
 def task(item):
@@ -161,20 +179,20 @@ def task(item):
                     oc['%s:bytes-differ' % kind] += 1
                     bad('bytes:%s:%s' % (kind, d[0]), 'variant %s %s changes the output of %s (%s): %s' % (kind, label, d[0], d[1], d[2]), kind, label, specs)
     # delivery: stdin through the CLI (and files through the CLI)
-    n += 1
-    code, api, so, se, esc = stdin_variant(ref_specs)
-    text = ''.join(t for _, t in ref_specs)
-    if api is None:
-        oc['stdin:refused'] += 1
-        bad('stdin:refused', 'stdin delivery refused: exit %r %s %s' % (code, se[:200], esc[:2] if esc else ''), 'stdin', '', [('stdin', text)], se[:400])
-    else:
-        sig = strip_docs(impl.signature(api))
-        if json.dumps(sig, sort_keys=True, default=repr) != ref_sig_json:
-            d = refsem.first_diff(ref_sig, sig) or ('?', None, None)
-            oc['stdin:signature-differs'] += 1
-            bad('stdin:signature:' + refsem.diff_identity(d[0]), 'stdin delivery changes the description at %s' % d[0], 'stdin', '', [('stdin', text)])
+    for slab, text in (stdin_texts(ref_specs) if text_level else list(stdin_texts(ref_specs))[:1]):
+        n += 1
+        code, api, so, se, esc = stdin_variant(ref_specs, text)
+        if api is None:
+            oc['stdin:refused'] += 1
+            bad('stdin:refused' + ('' if slab == 'plain' else ':' + slab), 'stdin delivery (%s) refused: exit %r %s %s' % (slab, code, se[:200], esc[:2] if esc else ''), 'stdin', slab, [('stdin', text)], se[:400])
         else:
-            oc['stdin:same'] += 1
+            sig = strip_docs(impl.signature(api))
+            if json.dumps(sig, sort_keys=True, default=repr) != ref_sig_json:
+                d = refsem.first_diff(ref_sig, sig) or ('?', None, None)
+                oc['stdin:signature-differs'] += 1
+                bad('stdin:signature:' + refsem.diff_identity(d[0]), 'stdin delivery (%s) changes the description at %s' % (slab, d[0]), 'stdin', slab, [('stdin', text)])
+            else:
+                oc['stdin:same'] += 1
     return {'outcome': oc, 'viol': v, 'n': n, 'transitions': n}
 
 
@@ -205,7 +223,7 @@ def replay(rep):
             return 1
         return 0
     if rep['inputs']['variant'].startswith('stdin'):
-        code, api, so, se, esc = stdin_variant(ref_specs)
+        code, api, so, se, esc = stdin_variant(ref_specs, var[0][1] if var else None)
         if api is None:
             print('VIOLATION property=%s replay=replayed' % PROP)
             return 1
